@@ -27,8 +27,22 @@ PKG = {"p": "alpha", "q": "beta", "r": "gamma"}
 LANGLOOP_SITE = "codegen.(*Pipeline).Run/range targetsByLanguage"
 
 
+def pkg_name(desc):
+    """The real package of an input: the abstract one (p/q/r) unless the case gives the extra input another name."""
+    return desc.get("pkgname") or PKG[desc["abs"]["pkg"]]
+
+
+# Constructs the language chains REWRITE (anonymous structs, anonymous enums, maps of anonymous structs, scalar unions): every
+# real input carries them, so that pass-local state leaking from one schema / language / run into another shows in the files.
+BAIT_X = [("opts", ("struct", [("depth", "int", False, None), ("label", "string", False, None)]), False, None),
+          ("level", ("enum", ["low", "high"]), False, None),
+          ("byname", ("map", ("struct", [("v", "string", False, None)])), False, None)]
+BAIT_Y = [("opts", ("struct", [("width", "int", False, None)]), False, None), ("level", ("enum", ["on", "off"]), False, None)]
+BAIT_B = [("frame", ("struct", [("top", "int", False, None), ("inner", ("struct", [("deep", "string", False, None)]), False, None)]), False, None)]
+
+
 # ------------------------------------------------------------------------------------------------ abstract -> real
-def real_spec(abs_in):
+def real_spec(abs_in, pkgname=None):
     objs = []
     names = sorted(abs_in["objs"])
     for n in names:
@@ -39,12 +53,12 @@ def real_spec(abs_in):
                          ("AOne", "struct", [("kind", ("const", "one"), True, None), ("type", ("const", "1"), True, None), ("v", "string", False, None)]),
                          ("ATwo", "struct", [("kind", ("const", "two"), True, None), ("type", ("const", "2"), True, None), ("w", "int", False, None)])]
             elif o["body"] == "x":
-                objs.append(("A", "struct", [("s", "string", True, None), ("n", "int", False, None)]))
+                objs.append(("A", "struct", [("s", "string", True, None), ("n", "int", False, None)] + BAIT_X))
             else:
-                objs.append(("A", "struct", [("s", "int", True, None)]))
+                objs.append(("A", "struct", [("s", "int", True, None)] + BAIT_Y))
         else:
-            objs.append((n, "struct", [("flag", "bool", False, None), ("note", "string", False, "b"), ("marks", ("array", "string"), False, ["m1", "m2"])]))
-    return {"pkg": PKG[abs_in["pkg"]], "objects": objs}
+            objs.append((n, "struct", [("flag", "bool", False, None), ("note", "string", False, "b"), ("marks", ("array", "string"), False, ["m1", "m2"])] + BAIT_B))
+    return {"pkg": pkgname or PKG[abs_in["pkg"]], "objects": objs}
 
 
 def input_id(desc):
@@ -55,7 +69,11 @@ def write_real_input(d, desc, allowed):
     """desc = {"abs": abstract input, "fmt": format}. Returns the YAML inputs entry."""
     if desc.get("special") == "intersection":
         return write_intersection_input(d, desc)
-    spec = real_spec(desc["abs"])
+    if desc.get("special") == "perturb":
+        return write_perturbed_input(d, desc)
+    if desc.get("special") == "constref":
+        return pc.write_constref_cue(d, "cue_" + input_id(desc), pkg_name(desc))
+    spec = real_spec(desc["abs"], pkg_name(desc))
     fmt = desc["fmt"]
     tag = input_id(desc)
     extra = {"allowed_objects": ["A"]} if allowed == "A" else None
@@ -85,7 +103,7 @@ def write_intersection_input(d, desc):
     """An intersection (`allOf` / `A & {...}`) whose inline branch holds a nested ANONYMOUS struct: the naming passes of
     go/java rewrite that branch, TypeScript keeps it - a shallow copy of the branches leaks from one language to the next."""
     tag = input_id(desc)
-    pkg = PKG[desc["abs"]["pkg"]]
+    pkg = pkg_name(desc)
     if desc["fmt"] == "cue":
         cd = os.path.join(d, "cue_" + tag)
         os.makedirs(cd, exist_ok=True)
@@ -104,7 +122,52 @@ def write_intersection_input(d, desc):
     return {"jsonschema": {"path": "%__config_dir%/" + os.path.basename(p), "package": pkg}}
 
 
-def make_job(base, name, descs, langs, flags, allowed="all", ndef=0, sched=None):
+# Same-package redefinitions that differ in ONE declared attribute of the definition. Object.Equal on HEAD compares the name,
+# the comments, the self reference, the passes trail and the WHOLE type tree (kind, nullable, default, hints, constraints,
+# field names / required / comments, enum members, reference targets, constant values, at any depth): each of these
+# differences is a conflict; the merge oracle demands conflict-or-identical, in both input orders.
+PERTURB_BASE = {
+    "Event": {"type": "object", "required": ["at"], "properties": {
+        "at": {"type": "string"}, "n": {"type": "integer"}, "tags": {"type": "array", "items": {"type": "string"}},
+        "mode": {"type": "string", "enum": ["a", "b"]}, "k": {"type": "string", "const": "a"}, "other": {"$ref": "#/definitions/Other"},
+        "inner": {"type": "object", "properties": {"when": {"type": "string"}}}}},
+    "Other": {"type": "object", "properties": {"id": {"type": "string"}}},
+    "Third": {"type": "object", "properties": {"id": {"type": "string"}}},
+    "Holder": {"type": "object", "properties": {"e": {"$ref": "#/definitions/Event"}, "o": {"$ref": "#/definitions/Other"}, "t": {"$ref": "#/definitions/Third"}}},
+}
+PERTURBATIONS = {
+    "identical": lambda e: None,
+    "hint-format": lambda e: e["properties"]["at"].update(format="date-time"),
+    "hint-format-nested": lambda e: e["properties"]["inner"]["properties"]["when"].update(format="date-time"),
+    "hint-format-items": lambda e: e["properties"]["tags"]["items"].update(format="date-time"),
+    "constraint": lambda e: e["properties"]["at"].update(minLength=1),
+    "constraint-number": lambda e: e["properties"]["n"].update(minimum=0),
+    "default": lambda e: e["properties"]["at"].update(default="x"),
+    "required": lambda e: e.update(required=["at", "n"]),
+    "not-required": lambda e: e.pop("required"),
+    "field-comment": lambda e: e["properties"]["at"].update(description="when it happened"),
+    "object-comment": lambda e: e.update(description="an event"),
+    "kind": lambda e: e["properties"]["at"].update(type="integer"),
+    "item-kind": lambda e: e["properties"]["tags"]["items"].update(type="integer"),
+    "enum-member": lambda e: e["properties"]["mode"].update(enum=["a", "c"]),
+    "constant-value": lambda e: e["properties"]["k"].update(const="b"),
+    "reference-target": lambda e: e["properties"]["other"].update({"$ref": "#/definitions/Third"}),
+    "extra-field": lambda e: e["properties"].update(more={"type": "boolean"}),
+    "nested-field": lambda e: e["properties"]["inner"]["properties"].update(more={"type": "boolean"}),
+}
+
+
+def write_perturbed_input(d, desc):
+    tag = input_id(desc)
+    defs = json.loads(json.dumps(PERTURB_BASE))
+    PERTURBATIONS[desc["variant"]](defs["Event"])
+    doc = {"$schema": "http://json-schema.org/draft-07/schema#", "$ref": "#/definitions/Holder", "definitions": defs}
+    p = os.path.join(d, tag + ".schema.json")
+    open(p, "w").write(json.dumps(doc, indent=1))
+    return {"jsonschema": {"path": "%__config_dir%/" + os.path.basename(p), "package": pkg_name(desc)}}
+
+
+def make_job(base, name, descs, langs, flags, allowed="all", ndef=0, sched=None, final=""):
     d = os.path.join(base, name)
     os.makedirs(d)
     inputs = [write_real_input(d, x, allowed) for x in descs]
@@ -114,10 +177,12 @@ def make_job(base, name, descs, langs, flags, allowed="all", ndef=0, sched=None)
             {"fields_set_default": {"defaults": {"alpha.B.note": "v1", "alpha.b.NOTE": "v1"}}}]}))
         passes = ["%__config_dir%/common.yaml"]
     y = pc.write_pipeline(d, "pipeline", inputs, langs, common_passes=passes, **flags)
-    pkgs = sorted({PKG[x["abs"]["pkg"]] for x in descs})
+    pkgs = sorted({pkg_name(x) for x in descs})
     job = {"id": name, "yaml": y, "inspect": False, "outdir": "out", "langs": list(langs), "pkgs": pkgs}
     if sched:
         job["sched"] = sched
+    if final:
+        job["final_prefix"] = final
     return job
 
 
@@ -140,16 +205,17 @@ class Plan:
         self.inputs_table = inputs_table
         self.n = 0
 
-    def add(self, group, descs, langs, flagname, allowed="all", ndef=0, sched=None):
+    def add(self, group, descs, langs, flagname, allowed="all", ndef=0, sched=None, final=""):
         self.n += 1
         name = "r%04d" % self.n
-        job = make_job(self.base, name, descs, langs, FLAGSETS[flagname], allowed, ndef, sched)
+        job = make_job(self.base, name, descs, langs, FLAGSETS[flagname], allowed, ndef, sched, final)
         ids = [input_id(x) for x in descs]
         for x, i in zip(descs, ids):
-            self.inputs_table[i] = {"pkg": PKG[x["abs"]["pkg"]]}
+            self.inputs_table[i] = {"pkg": pkg_name(x)}
         self.jobs.append(job)
         self.meta[name] = {"group": group, "descs": descs, "ids": ids, "langs": list(langs), "flags": flagname, "allowed": allowed,
-                           "ndef": ndef, "sched": sched, "cfg": cfg_key(FLAGSETS[flagname], allowed, ndef)}
+                           "ndef": ndef, "sched": sched, "final": final,
+                           "cfg": cfg_key(FLAGSETS[flagname], allowed, ndef) + (",final=" + final if final else "")}
         return name
 
 
@@ -222,6 +288,7 @@ def run(ctx):
     full = pc.LANGS
     sched_variants = [None]
     if overlay and have_langloop:
+        sched_variants.append({"reverse": [LANGLOOP_SITE]})       # with the canonical order: both orders of every pair
         sched_variants.append({"random": ctx.seed * 7919 + 13, "sites": [LANGLOOP_SITE]})
 
     # --- LanguageIndependent: singletons, pairs, the full set
@@ -260,6 +327,16 @@ def run(ctx):
                 for sv in (sched_variants if len(ls) > 1 else [None]):
                     plan.add("langs", descs, ls, "types", sched=sv)
 
+    # constant references (`kind: Kind & "circle"`) under a name-changing transformation configured at the end of EVERY language's
+    # chain (codegen.Transforms.FinalPasses = PrefixObjectNames): what one chain writes must not reach the next language
+    cref = {"abs": isect_abs, "fmt": "cue", "special": "constref"}
+    cref_pairs = [list(p) for p in itertools.combinations(full, 2)]
+    cref_subsets = [[l] for l in full] + (cref_pairs[ctx.seed % 3::3] if quick else cref_pairs) + [list(full)]
+    for descs in ([cref], [cref, plain_q]):
+        for ls in cref_subsets:
+            for sv in (sched_variants if len(ls) > 1 else [None]):
+                plan.add("langs", descs, ls, "types", sched=sv, final="Geo")
+
     # --- InputOrderIndependent: TLC's perm cases (two inputs of different packages) + every permutation of three mixed-format inputs
     def conflicting(inputs):
         seen = {}
@@ -295,7 +372,8 @@ def run(ctx):
     for ci, c in enumerate(extra_cases):
         d1 = descs_of(c["inputs1"], ci + ctx.seed + 1)
         extra_abs = [a for a in c["inputs2"] if a["pkg"] == "r"][0]
-        ex = {"abs": extra_abs, "fmt": fmt_cycle(ci)}
+        # the unrelated package sorts before ("aardvark") or after ("gamma") the others: Consolidate orders packages by name
+        ex = {"abs": extra_abs, "fmt": fmt_cycle(ci), "pkgname": "aardvark" if ci % 2 == 0 else "gamma"}
         d2 = []
         rest = list(d1)
         for a in c["inputs2"]:
@@ -320,7 +398,8 @@ def run(ctx):
 
     def describe(name):
         m = plan.meta[name]
-        return {"inputs": m["descs"], "langs": m["langs"], "flags": m["flags"], "allowed": m["allowed"], "ndef": m["ndef"], "sched": m["sched"]}
+        return {"inputs": m["descs"], "langs": m["langs"], "flags": m["flags"], "allowed": m["allowed"], "ndef": m["ndef"], "sched": m["sched"],
+                "final": m.get("final", "")}
 
     def pair_fail(clause, n1, n2, paths, what):
         py_pairs.add((min(n1, n2), max(n1, n2), clause))
@@ -340,7 +419,7 @@ def run(ctx):
     by_cfg = {}
     for name, m in plan.meta.items():
         by_cfg.setdefault(m["cfg"], []).append(name)
-    pkgs_of = lambda m: [PKG[x["abs"]["pkg"]] for x in m["descs"]]
+    pkgs_of = lambda m: [pkg_name(x) for x in m["descs"]]
     for cfg, names in by_cfg.items():
         for a, b in itertools.combinations(sorted(names), 2):
             ma, mb = plan.meta[a], plan.meta[b]
@@ -403,12 +482,26 @@ def run(ctx):
             whole = make_job(mdir, name + "-whole", descs, ["go"], FLAGSETS["types"])
             mjobs.append({"id": name, "parts": parts, "whole": whole["yaml"]})
             mmeta[name] = descs
+    # one-attribute redefinitions, in both input orders
+    pabs = {"pkg": "p", "coll": False, "objs": {"A": {"body": "x", "ncands": 0}}}
+    perturbed = {}
+    for v in sorted(PERTURBATIONS):
+        base_d = {"abs": pabs, "fmt": "jsonschema", "special": "perturb", "variant": "identical", "copy": 0}
+        var_d = {"abs": pabs, "fmt": "jsonschema", "special": "perturb", "variant": v, "copy": 1}
+        for order, descs in (("ab", [base_d, var_d]), ("ba", [var_d, base_d])):
+            name = "mp-%s-%s" % (v, order)
+            parts = [make_job(mdir, "%s-part%d" % (name, pi), [x], ["go"], FLAGSETS["types"])["yaml"] for pi, x in enumerate(descs)]
+            whole = make_job(mdir, name + "-whole", descs, ["go"], FLAGSETS["types"])
+            mjobs.append({"id": name, "parts": parts, "whole": whole["yaml"]})
+            mmeta[name] = descs
+            perturbed[name] = v
     mres = pc.run_jobs(ctx, "c07-merge", mjobs, parallel=8)
     merge_records = []
+    perturb_seen = {}
     merged_ok = conflicts = 0
     for r in mres:
         descs = mmeta[r["id"]]
-        pkg = PKG[descs[0]["abs"]["pkg"]]
+        pkg = pkg_name(descs[0])
         if any(p["err"] for p in r["parts"]):
             raise core.Inconclusive("merge corpus: an input does not load on its own: %s" % [p["err"] for p in r["parts"]])
         parts = [p["packages"].get(pkg, {}).get("objects", {}) for p in r["parts"]]
@@ -421,6 +514,8 @@ def run(ctx):
                 union.setdefault(n, h)
         if len(set(sum([list(p) for p in parts], []))) < sum(len(p) for p in parts) or collide:
             nontrivial["MergeIsUnionOrConflict"] += 1    # the two inputs share at least one object name
+        if r["id"] in perturbed:
+            perturb_seen[perturbed[r["id"]]] = collide
         w = r["whole"]
         wdefs = (w["packages"] or {}).get(pkg, {}).get("objects", {}) if not w["err"] else {}
         merge_records.append(pc.merge_record(parts, bool(w["err"]), wdefs, r["id"]))
@@ -434,12 +529,20 @@ def run(ctx):
         dropped = sorted(n for n in union if n not in wdefs)
         extra = sorted(n for n in wdefs if n not in union)
         changed = sorted(n for n in union if n in wdefs and wdefs[n] not in [p.get(n) for p in parts])
-        if collide:
+        if collide and r["id"] in perturbed:
+            ctx.fail("C07/MergeIsUnionOrConflict/overwritten/" + perturbed[r["id"]].split("-")[0],
+                     "two inputs of one package define an object differently (%s) and the run succeeds: the first one wins silently (%s)" % (perturbed[r["id"]], r["id"]), rp)
+        elif collide:
             ctx.fail("C07/MergeIsUnionOrConflict/overwritten", "two inputs define an object differently and the run succeeds (%s)" % r["id"], rp)
         elif dropped:
             ctx.fail("C07/MergeIsUnionOrConflict/dropped", "definitions %s are missing after the merge" % dropped, rp)
         elif extra or changed:
             ctx.fail("C07/MergeIsUnionOrConflict/altered", "definitions added %s / changed %s by the merge" % (extra, changed), rp)
+    effective = sorted(v for v, differs in perturb_seen.items() if differs)
+    if len(effective) < 12 and not ctx.failures:
+        raise core.Inconclusive("merge corpus: only %d of %d one-attribute redefinitions change the loaded definition: %s" % (len(effective), len(PERTURBATIONS), effective))
+    if perturb_seen.get("identical"):
+        raise core.Inconclusive("merge corpus: the same input loaded twice gives two different definitions")
     if (merged_ok == 0 or conflicts == 0) and not ctx.failures:
         raise core.Inconclusive("merge corpus vacuous: %d unions, %d conflicts" % (merged_ok, conflicts))
 
@@ -452,9 +555,11 @@ def run(ctx):
                pc.sink_entry(idir, "im-sink"), pc.passes_entry(idir, "im-passes")]
     if not quick:
         entries.append(pc.feature_entry(idir, "im-all", {"pkgs": 2, "cands": 1, "defaults": 1, "compose": 2, "nested": 1, "collide": 1}))
+    entries.append(pc.constref_entry(idir, "im-constref"))
     for e in entries:
         for sv in ([None, {"random": ctx.seed + 101}] if overlay else [None]):
-            ijobs.append({"id": e["id"] + ("-rnd" if sv else ""), "yaml": e["yaml"], "chains": chains, "sched": sv})
+            ijobs.append({"id": e["id"] + ("-rnd" if sv else ""), "yaml": e["yaml"], "chains": chains + e.get("chains", []), "sched": sv,
+                          "final_prefix": e.get("final_prefix", "")})
     ires = pc.run_jobs(ctx, "c07-immut", ijobs, parallel=8)
     immut_records = []
     copy_mutators = set()
@@ -564,7 +669,7 @@ def run(ctx):
         "distinct_nontrivial": sum(nontrivial.values()) + parts["inputs"]["replayed"] + parts["fileset"]["replayed"],
         "growth_inputs": parts["inputs"], "growth_fileset": parts["fileset"],
         "comparisons_per_clause": counts, "nontrivial_per_clause": nontrivial,
-        "real_pipeline_runs": len(plan.jobs), "runs_failing": len(failing), "runs_failing_why": {k: len(v) for k, v in failing_why.items()}, "merge_unions": merged_ok, "merge_conflicts": conflicts,
+        "real_pipeline_runs": len(plan.jobs), "runs_failing": len(failing), "runs_failing_why": {k: len(v) for k, v in failing_why.items()}, "merge_unions": merged_ok, "merge_conflicts": conflicts, "merge_one_attribute_redefinitions": effective,
         "tlc_cases": {k: len(v) for k, v in by_rel.items()}, "language_subsets": len(subsets), "input_sets_for_language_subsets": len(li_sets),
         "scheduler_mode": info["mode"], "language_loop_scheduled": bool(overlay and have_langloop),
         "model_selftest_faults": faults, "binding_selftest": selftest,
@@ -625,12 +730,12 @@ def replay(ctx):
     elif clause in ("LanguageIndependent", "InputOrderIndependent", "UnrelatedInputIrrelevant", "Deterministic"):
         jobs = []
         for k, x in enumerate(r["runs"]):
-            jobs.append(make_job(base, "replay%d" % k, x["inputs"], x["langs"], FLAGSETS[x["flags"]], x["allowed"], x["ndef"], x["sched"]))
+            jobs.append(make_job(base, "replay%d" % k, x["inputs"], x["langs"], FLAGSETS[x["flags"]], x["allowed"], x["ndef"], x["sched"], x.get("final", "")))
         out = pc.run_jobs(ctx, "pipe-run", jobs, args=["-full"], parallel=2)
         a, b = sorted(out, key=lambda o: o["id"])
         common = set(r["runs"][0]["langs"]) & set(r["runs"][1]["langs"])
-        allp = sorted({PKG[i["abs"]["pkg"]] for x in r["runs"] for i in x["inputs"]})
-        keep = sorted({PKG[i["abs"]["pkg"]] for i in r["runs"][0]["inputs"]})
+        allp = sorted({pkg_name(i) for x in r["runs"] for i in x["inputs"]})
+        keep = sorted({pkg_name(i) for i in r["runs"][0]["inputs"]})
         only = (lambda p: lang_of(p, pc.LANGS) in common) if clause != "UnrelatedInputIrrelevant" else (lambda p: pkg_of(p, allp) in keep)
         paths = diff_paths(a.get("files") or {}, b.get("files") or {}, only=only)
         if paths or bool(a["err"]) != bool(b["err"]):
@@ -639,7 +744,7 @@ def replay(ctx):
         parts = [make_job(base, "part%d" % k, [x], ["go"], FLAGSETS["types"])["yaml"] for k, x in enumerate(r["inputs"])]
         whole = make_job(base, "whole", r["inputs"], ["go"], FLAGSETS["types"])["yaml"]
         out = pc.run_jobs(ctx, "c07-merge", [{"id": "m", "parts": parts, "whole": whole}], parallel=1)[0]
-        pkg = PKG[r["inputs"][0]["abs"]["pkg"]]
+        pkg = pkg_name(r["inputs"][0])
         union = {}
         collide = False
         for p in out["parts"]:
@@ -658,6 +763,7 @@ def replay(ctx):
                    "im-compose": lambda: pc.feature_entry(idir, "im-compose", {"compose": 2, "cands": 1}),
                    "im-sink": lambda: pc.sink_entry(idir, "im-sink"),
                    "im-passes": lambda: pc.passes_entry(idir, "im-passes"),
+                   "im-constref": lambda: pc.constref_entry(idir, "im-constref"),
                    "im-all": lambda: pc.feature_entry(idir, "im-all", {"pkgs": 2, "cands": 1, "defaults": 1, "compose": 2, "nested": 1, "collide": 1})}
         eid = r["entry"].replace("-rnd", "")
         e = entries[eid]()
